@@ -5,8 +5,11 @@
                                                              np.arange candidates, validity mask)
    The arithmetic site is a parameter (DESIGN 2.6): [Exact] is the integer arithmetic of the
    current code ((k*d // n) // cadence), [LongDouble] is the np.longdouble arithmetic the code used
-   before the fix (np.uint64(s / (cadence * sps)), np.uint64(sample / sps)).  Which one /repo
-   implements is decided by the correspondence on every run. *)
+   before the fix (np.uint64(s / (cadence * sps)), np.uint64(sample / sps)), [U64Wrap] is the same
+   integer formula evaluated in numpy uint64 (the product k*d wraps modulo 2^64: what happens when the
+   index is not converted to a Python int first).  The current code uses Python integers, which are
+   unbounded, so [Exact] over Z assumes no bound on k*d.  Which one /repo implements is decided by
+   the correspondence on every run. *)
 From Coq Require Import ZArith List Bool String.
 From DRF Require Import Base.DivLemmas Base.Dec Base.Civil Model.Ld80.
 Import ListNotations.
@@ -15,7 +18,7 @@ Local Open Scope Z_scope.
 (* static channel parameters: rate numerator / denominator, file cadence, subdirectory cadence *)
 Record cfg := mkCfg { rn : Z; rd : Z; fc : Z; sc : Z }.
 
-Inductive arith := Exact | LongDouble.
+Inductive arith := Exact | LongDouble | U64Wrap.
 
 Definition ld_sps (c : cfg) : ld := ld_div (ld_of_Z (rn c)) (ld_of_Z (rd c)).
 
@@ -25,6 +28,7 @@ Definition w_file_idx (a : arith) (c : cfg) (k : Z) : Z :=
   match a with
   | Exact => (k * rd c / rn c) / fc c
   | LongDouble => ld_trunc (ld_div (ld_of_Z k) (ld_mul (ld_of_Z (fc c)) (ld_sps c)))
+  | U64Wrap => (((k * rd c) mod 18446744073709551616) / rn c) / fc c
   end.
 (* file_ts = file_idx * file_cadence_secs *)
 Definition w_file_ts (a : arith) (c : cfg) (k : Z) : Z := w_file_idx a c k * fc c.
@@ -39,6 +43,7 @@ Definition r_sec (a : arith) (c : cfg) (k : Z) : Z :=
   match a with
   | Exact => k * rd c / rn c
   | LongDouble => ld_trunc (ld_div (ld_of_Z k) (ld_sps c))
+  | U64Wrap => ((k * rd c) mod 18446744073709551616) / rn c
   end.
 (* (ts // file_cadence_secs) * file_cadence_secs *)
 Definition r_ts (a : arith) (c : cfg) (k : Z) : Z := (r_sec a c k / fc c) * fc c.
